@@ -303,6 +303,15 @@ class Harness:
         import someip.sd
 
         self.loop = VLoop()
+        # order of timers with exactly equal deadlines: FIFO by default; the thorough tier also explores LIFO and a seeded
+        # random order on some shards (PV_TIEBREAK is set per shard by the runner and recorded in replay files)
+        import os as _os
+        import random as _random
+
+        tb = _os.environ.get("PV_TIEBREAK", "fifo")
+        if tb in ("lifo", "random"):
+            self.loop.tiebreak = tb
+            self.loop.tiebreak_rng = _random.Random(rng.random() if hasattr(rng, "random") else 0)
         self.loop.max_iterations = max_iterations
         asyncio.set_event_loop(self.loop)
         self.draws = Draws(rng, draw_mode, forced)
